@@ -131,7 +131,9 @@ finding("C10-read-input-varptr-only-variables", ["C10", "C03"],
         {"C10": [C10CASE("10 READ AA$\n20 DATA ITEM", [VAR("AA", "str", "read")], default_str_storage=40),
                  C10CASE("10 INPUT BQ(3)", [VAR("BQ", "arr", "input", [11])]),
                  C10CASE("10 ZN=VARPTR(CX$)", [VAR("CX", "str", "varptr")], default_str_storage=40)],
-         "C03": [P([10, [["read", [["arr", "Q", [N(3)]]]]]], [20, [["data", [["n", "7", 7]]]]], [30, [PR(["arr", "Q", [N(3)]])]])]},
+         "C03": [P([10, [["read", [["arr", "Q", [N(3)]]]], ["end"]]], [20, [["data", [["n", "7", 7]]]]]),
+                 dict(P([10, [["input", None, [["svar", "ZQ"]], False], ["end"]]]), options={"default_str_storage": 80, "initialize_vars": True}, str_limit=80,
+                      script={"INPUT$": ["0123456789012345678901234567890123456789"], "INPUT": []})]},
         switch="rw_targets_also_top_level")
 finding("C10-joystick-state-declared-twice", ["C10", "C14"],
         "the JOYSTK prologue declares joy0y twice ('dim joy0x, joy0y, joy1x, joy0y: integer') and never declares joy1y; ecb_joystk is called with 2 arguments although it declares 6 parameters",
@@ -206,3 +208,18 @@ C15("C15-deep-nesting-recursionerror",
     "about 150 nested parentheses (300 bytes of input) exhaust Python's recursion limit inside the PEG parser: RecursionError instead of a refusal",
     [["RecursionError", "*"]],
     [SRC("10 A=" + "(" * 200 + "1" + ")" * 200)], switch="nesting_le_60")
+
+finding("C20-ecb-instr-never-assigned-its-result", ["C20"],
+        "ecb_instr compared against a substring of the wrong length, stopped one position early, would have kept the last match and never stored 0: the caller's variable kept its old value",
+        {"C20": [{"fn": "instr", "args": [1, "ABAB", "AB"]}, {"fn": "instr", "args": [1, "AB", "X"]}, {"fn": "instr", "args": [2, "ABAB", "AB"]}]},
+        status="fixed", commit="7a287a6")
+
+finding("C04-leading-unary-operand-dropped", ["C04"],
+        "the optional operand of CLS / HSCREEN / HCLS is silently replaced by the default when it starts with a unary minus or NOT ('CLS -A' gives 'RUN ecb_cls(1.0, display)')",
+        {"C04": [P([10, [LET(V("A"), ["neg", N(3)])]], [20, [["dev", "CLS", {"a": ["neg", V("A")]}]]]),
+                 P([10, [LET(V("A"), N(2))]], [20, [["dev", "HCLS", {"a": ["not", V("A")]}]]]),
+                 P([10, [LET(V("A"), ["neg", N(2)])]], [20, [["dev", "HSCREEN", {"a": ["neg", V("A")]}]]])]},
+        switch="cls_operand_no_leading_unary")
+LANG_FINDINGS[[f["id"] for f in LANG_FINDINGS].index("C05-width-read-input-operands-not-visited")]["property"].append("C04")
+LANG_FINDINGS[[f["id"] for f in LANG_FINDINGS].index("C05-width-read-input-operands-not-visited")]["witnesses"]["C04"] = [
+    P([10, [LET(V("A"), N(40))]], [20, [["dev", "WIDTH", {"a": FN("INT", V("A"))}]]])]
